@@ -157,6 +157,9 @@ def rules(ctx):
     cycles_follow_vehicles(ctx, sites)
     common.who_may_call(ctx, "R4.schedule-new-callers", S("new"), [SCHEDULE + "::"], "Schedule::new is called only inside impl Schedule", floor=12)
     fresh_ids(ctx, sites)
+    from .C12 import gap_guard, gap_operands
+    gap_guard(ctx)          # consecutive nodes of a tour stay connectable when a segment is taken out
+    gap_operands(ctx)
     from .C15 import empty_cycle_bookkeeping
     empty_cycle_bookkeeping(ctx)     # every vehicle sits in exactly one cycle: the free-list never hands out an occupied cycle
     # the producer-set and guard rules behind the tour / limit / membership invariants
